@@ -42,12 +42,7 @@ def kf_subscribe_in_multi(finding):
     return queued_sub and ('AssertionError' in detail or 'StopIteration' in detail)
 
 
-def kf_gate_after_missing_key(finding):
-    """subscriber mode: a command whose key is missing is answered by Signature.apply's short-circuit (nil / 0 / empty) before the mode check"""
-    return finding.get('clause') == 'subscriber_mode_refuses' and 'short-circuit: Signature.apply answered for a missing key' in str(finding.get('detail'))
-
-
-KF_PREDICATES = {'subscribe_in_multi': kf_subscribe_in_multi, 'gate_after_missing_key': kf_gate_after_missing_key}
+KF_PREDICATES = {'subscribe_in_multi': kf_subscribe_in_multi}
 
 
 def replay_known(kf, prop):
